@@ -238,6 +238,17 @@ def cases(tier, shard, nshards):
                 continue
             yield E(s, cF(float(s.rstrip("f"))), "float")
             yield E(s.rstrip("f") + "i", ["c", f2hex(0.0), f2hex(float(s.rstrip("f")))], "imaginary") if "e" not in s else E(s, cF(float(s)), "float")
+    # float literals with an exponent: mantissas of every length 1..20 (the 15/16/17-digit and 2^53 boundaries of exact
+    # conversion) x every exponent in a window x the lexer's two routes (with and without a decimal point)
+    mants = set()
+    for L in range(1, 21):
+        mants.update(["9" * L, "1" * L, ("1" + "0" * (L - 2) + "1") if L >= 2 else "7", "9007199254740993"[:L], "4503599627370497"[:L]])
+    for mt in sorted(mants, key=lambda t: (len(t), t)):
+        for ex in (range(-30, 31) if tier != "quick" else list(range(-24, 25, 3)) + [-23, -22, -1, 1, 22, 23]):
+            if not mine():
+                continue
+            for s_ in ("%se%d" % (mt, ex), "%s.0e%d" % (mt, ex), "%s.%se%d" % (mt[:1], mt[1:] or "0", ex)):
+                yield E(s_, cF(float(s_)), "float-exponent")
     # escapes
     for q in ("'", '"'):
         for b in range(256):
